@@ -9,6 +9,8 @@ theorem tie_txnPrograms : Gen.txnPrograms = Expected.txnPrograms := by decide +k
 
 theorem tie_collPrograms : Gen.collPrograms = Expected.collPrograms := by decide +kernel
 
+theorem tie_cloneBodies : Gen.cloneBodies = Expected.cloneBodies := by decide +kernel
+
 /-- hence the regenerated programs pass the ownership check -/
 theorem gen_owned : ∀ p ∈ Gen.txnPrograms, Own.ownedOK p.2 = true := by
   rw [tie_txnPrograms]; exact Expected.expected_owned
